@@ -37,7 +37,7 @@ from translate import deflate_consts
 from vlib import core
 
 PROP = "C12"
-PROOF_MODULES = ["Abverif.Proofs.C12", "Abverif.Proofs.Lemmas.PmceData"] + \
+PROOF_MODULES = ["Abverif.Proofs.C12", "Abverif.Proofs.Lemmas.PmceData", "Abverif.Proofs.Lemmas.PmceRtSmall"] + \
     [f"Abverif.Proofs.Lemmas.PmceRt{k}{i}" for k in ("Offer", "Resp") for i in range(4)]
 W = Path(__file__).parent / "workers"
 _CONSTS = {}
@@ -92,6 +92,11 @@ MANIFEST_ENTRY = {
 }
 
 BOOLS = ["0", "1"]
+# the Spec's ranges (property text: "every window size 9-15"; RFC 7692 / zlib: mem level 1..9). The lattice and the
+# data-path scenarios are built from THESE, not from the tables read from the source: a source that widens its tables
+# must be caught by the probes, not followed.
+SPEC_WINDOW = list(range(9, 16))
+SPEC_MEM = list(range(1, 10))
 
 
 # ------------------------------------------------------------------------------------------------ helpers
@@ -147,6 +152,16 @@ def drv_lines(ctx, lines, nproc=8):
     return res
 
 
+def corpus(kind):
+    """corpus/C12/*.json (minimised past failures and regression inputs) of one kind; they ride in the first batch"""
+    out = []
+    for f in sorted((core.VERIF / "corpus" / PROP).glob("*.json")):
+        rp = json.loads(f.read_text())["replay"]
+        if rp.get("kind") == kind:
+            out.append(rp)
+    return out
+
+
 class Acc:
     """collects violations (one per key, first concrete input wins) and correspondence breaks"""
 
@@ -181,8 +196,8 @@ def part_consts(ctx, res, acc):
 
 # ------------------------------------------------------------------------------------------------ B lattice
 
-def lattice(consts):
-    win = [str(w) for w in consts["window"]]
+def lattice(consts=None):
+    win = [str(w) for w in SPEC_WINDOW]
     WIN = ["0"] + win
     OW = ["~"] + win
     offers = [list(t) for t in itertools.product(BOOLS, BOOLS, BOOLS, WIN)]
@@ -194,9 +209,12 @@ def lattice(consts):
 def part_lattice(ctx, res, acc):
     consts = _CONSTS or deflate_consts.translate(ctx)
     win, WIN, OW, offers, accepts, raccepts = lattice(consts)
-    mems = ["~"] + [str(m) for m in consts["mem"]]
-    lines = []
-    tags = []          # expectation from the Spec by construction: "raise" for out-of-range probes, None otherwise
+    mems = ["~"] + [str(m) for m in SPEC_MEM]
+    if list(consts["window"]) != SPEC_WINDOW or list(consts["mem"]) != SPEC_MEM or consts["default_window_bits"] != 15:
+        acc.brk("tables read from the source are not the Spec's (window 9..15, mem level 1..9, default window 15)",
+                window=consts["window"], mem=consts["mem"], default=consts["default_window_bits"])
+    lines = [rp["line"] for rp in corpus("line")]
+    tags = [None] * len(lines)          # expectation from the Spec by construction: "raise" for out-of-range probes
     # offers + probes
     for o in offers:
         lines.append("pmce.offer " + " ".join(o)); tags.append(None)
@@ -313,7 +331,7 @@ def header_cases(ctx):
     """-> list of (side, header, policy tokens, defect or None). `defect` = a defect class the property names;
     the Spec then says: the client handshake fails."""
     rng = ctx.rng
-    cases = []
+    cases = [("srv" if rp["side"] == "srv" else "cli", rp["header"], rp["policy"], rp.get("defect")) for rp in corpus("handshake")]
     ok_resp = ["", "; server_no_context_takeover", "; client_no_context_takeover", "; server_max_window_bits=9",
                "; client_max_window_bits=15", "; server_max_window_bits=12; client_max_window_bits=10",
                "; server_no_context_takeover; server_max_window_bits=15; client_no_context_takeover; client_max_window_bits=9"]
@@ -490,8 +508,8 @@ INJECT = ["compressed-ping", "compressed-pong", "compressed-close", "rsv1-contin
 def scenarios(ctx):
     rng = ctx.rng
     consts = _CONSTS or deflate_consts.translate(ctx)
-    wins = consts["window"]
-    out = []
+    wins = SPEC_WINDOW
+    out = [rp["scenario"] for rp in corpus("scenario")]
     peers = ["real", "zlib-client", "zlib-server"]
     i = 0
     mems_all = [1, 8, 9]
